@@ -40,17 +40,17 @@ package rawmessagesfilter
 //@   requires f.state != nil && f.futureCache != nil && rawMessage != nil && ndelivered >= 0
 //@   requires [inv.cache] forall k int, i int :: has(f.futureCache, k) && 0 <= i && i < len(f.futureCache[k]) ==> f.futureCache[k][i].BlockHeight() == k && f.futureCache[k][i].InstanceId() == f.instanceId && f.futureCache[k][i].SenderMemberId() != f.myMemberId
 //@   ensures [inv.cache] forall k int, i int :: has(f.futureCache, k) && 0 <= i && i < len(f.futureCache[k]) ==> f.futureCache[k][i].BlockHeight() == k && f.futureCache[k][i].InstanceId() == f.instanceId && f.futureCache[k][i].SenderMemberId() != f.myMemberId
-//@   ensures [deliver.iff] (ndelivered > old(ndelivered)) == (message.SenderMemberId() != f.myMemberId && message.BlockHeight() == old(f.state.height) && message.InstanceId() == f.instanceId && old(f.consensusMessagesHandler) != nil)
+//@   ensures [deliver.iff] (ndelivered > old(ndelivered)) == (message != nil && message.SenderMemberId() != f.myMemberId && message.BlockHeight() == old(f.state.height) && message.InstanceId() == f.instanceId && old(f.consensusMessagesHandler) != nil)
 //@   ensures [deliver.this-message] ndelivered > old(ndelivered) ==> delivered[old(ndelivered)] == message
-//@   ensures [cache.append.key] message.SenderMemberId() != f.myMemberId && message.InstanceId() == f.instanceId && message.BlockHeight() > old(f.state.height) && message.BlockHeight() >= old(f.latestFutureBlockHeight) ==> has(f.futureCache, message.BlockHeight()) && f.latestFutureBlockHeight == message.BlockHeight()
-//@   ensures [cache.append.len] message.SenderMemberId() != f.myMemberId && message.InstanceId() == f.instanceId && message.BlockHeight() > old(f.state.height) && message.BlockHeight() >= old(f.latestFutureBlockHeight) ==> len(f.futureCache[message.BlockHeight()]) == ite(old(has(f.futureCache, message.BlockHeight())) && !isnil(old(f.futureCache[message.BlockHeight()])), old(len(f.futureCache[message.BlockHeight()])), 0) + 1
-//@   ensures [cache.append.last] message.SenderMemberId() != f.myMemberId && message.InstanceId() == f.instanceId && message.BlockHeight() > old(f.state.height) && message.BlockHeight() >= old(f.latestFutureBlockHeight) ==> f.futureCache[message.BlockHeight()][len(f.futureCache[message.BlockHeight()]) - 1] == message
-//@   ensures [cache.append.prefix] message.SenderMemberId() != f.myMemberId && message.InstanceId() == f.instanceId && message.BlockHeight() > old(f.state.height) && message.BlockHeight() >= old(f.latestFutureBlockHeight) ==> (forall i int :: 0 <= i && i < len(f.futureCache[message.BlockHeight()]) - 1 ==> f.futureCache[message.BlockHeight()][i] == old(f.futureCache[message.BlockHeight()][i]))
-//@   ensures [cache.append.higher-keys-kept] message.SenderMemberId() != f.myMemberId && message.InstanceId() == f.instanceId && message.BlockHeight() > old(f.state.height) && message.BlockHeight() >= old(f.latestFutureBlockHeight) ==> (forall k int :: k > message.BlockHeight() ==> has(f.futureCache, k) == old(has(f.futureCache, k)) && f.futureCache[k] == old(f.futureCache[k]))
-//@   ensures [cache.append.lower-keys-dropped] message.SenderMemberId() != f.myMemberId && message.InstanceId() == f.instanceId && message.BlockHeight() > old(f.state.height) && message.BlockHeight() >= old(f.latestFutureBlockHeight) && message.BlockHeight() > old(f.latestFutureBlockHeight) ==> (forall k int :: k < message.BlockHeight() ==> !has(f.futureCache, k))
-//@   ensures [cache.untouched-otherwise] !(message.SenderMemberId() != f.myMemberId && message.InstanceId() == f.instanceId && message.BlockHeight() > old(f.state.height) && message.BlockHeight() >= old(f.latestFutureBlockHeight)) && f.state.height == old(f.state.height) ==>
+//@   ensures [cache.append.key] message != nil && message.SenderMemberId() != f.myMemberId && message.InstanceId() == f.instanceId && message.BlockHeight() > old(f.state.height) && message.BlockHeight() >= old(f.latestFutureBlockHeight) ==> has(f.futureCache, message.BlockHeight()) && f.latestFutureBlockHeight == message.BlockHeight()
+//@   ensures [cache.append.len] message != nil && message.SenderMemberId() != f.myMemberId && message.InstanceId() == f.instanceId && message.BlockHeight() > old(f.state.height) && message.BlockHeight() >= old(f.latestFutureBlockHeight) ==> len(f.futureCache[message.BlockHeight()]) == ite(old(has(f.futureCache, message.BlockHeight())) && !isnil(old(f.futureCache[message.BlockHeight()])), old(len(f.futureCache[message.BlockHeight()])), 0) + 1
+//@   ensures [cache.append.last] message != nil && message.SenderMemberId() != f.myMemberId && message.InstanceId() == f.instanceId && message.BlockHeight() > old(f.state.height) && message.BlockHeight() >= old(f.latestFutureBlockHeight) ==> f.futureCache[message.BlockHeight()][len(f.futureCache[message.BlockHeight()]) - 1] == message
+//@   ensures [cache.append.prefix] message != nil && message.SenderMemberId() != f.myMemberId && message.InstanceId() == f.instanceId && message.BlockHeight() > old(f.state.height) && message.BlockHeight() >= old(f.latestFutureBlockHeight) ==> (forall i int :: 0 <= i && i < len(f.futureCache[message.BlockHeight()]) - 1 ==> f.futureCache[message.BlockHeight()][i] == old(f.futureCache[message.BlockHeight()][i]))
+//@   ensures [cache.append.higher-keys-kept] message != nil && message.SenderMemberId() != f.myMemberId && message.InstanceId() == f.instanceId && message.BlockHeight() > old(f.state.height) && message.BlockHeight() >= old(f.latestFutureBlockHeight) ==> (forall k int :: k > message.BlockHeight() ==> has(f.futureCache, k) == old(has(f.futureCache, k)) && f.futureCache[k] == old(f.futureCache[k]))
+//@   ensures [cache.append.lower-keys-dropped] message != nil && message.SenderMemberId() != f.myMemberId && message.InstanceId() == f.instanceId && message.BlockHeight() > old(f.state.height) && message.BlockHeight() >= old(f.latestFutureBlockHeight) && message.BlockHeight() > old(f.latestFutureBlockHeight) ==> (forall k int :: k < message.BlockHeight() ==> !has(f.futureCache, k))
+//@   ensures [cache.untouched-otherwise] !(message != nil && message.SenderMemberId() != f.myMemberId && message.InstanceId() == f.instanceId && message.BlockHeight() > old(f.state.height) && message.BlockHeight() >= old(f.latestFutureBlockHeight)) && f.state.height == old(f.state.height) ==>
 //@     | (forall k int :: has(f.futureCache, k) == old(has(f.futureCache, k)) && f.futureCache[k] == old(f.futureCache[k])) && f.latestFutureBlockHeight == old(f.latestFutureBlockHeight)
-//@   ensures [nothing-delivered-when-cached-or-dropped] !(message.SenderMemberId() != f.myMemberId && message.BlockHeight() == old(f.state.height) && message.InstanceId() == f.instanceId) ==> ndelivered == old(ndelivered) && f.state.height == old(f.state.height)
+//@   ensures [nothing-delivered-when-cached-or-dropped] !(message != nil && message.SenderMemberId() != f.myMemberId && message.BlockHeight() == old(f.state.height) && message.InstanceId() == f.instanceId) ==> ndelivered == old(ndelivered) && f.state.height == old(f.state.height)
 
 //@ func (*RawMessageFilter).ConsumeCacheMessages
 //@   props C17
